@@ -588,7 +588,7 @@ impl<'a> Case<'a> {
         }
     }
 
-    fn resync(&mut self, v: usize) {
+    pub fn resync(&mut self, v: usize) {
         let s = self.rig.snap(v);
         self.model.vecs[v] = s.vals.iter().filter_map(|x| if let Val::Id(i) = x { Some(*i) } else { None }).collect();
     }
